@@ -391,4 +391,3 @@ func init() {
 		fmt.Println(string(b))
 	}
 }
-
